@@ -28,11 +28,24 @@ def corpus():
 
 def generate(rng, tier):
     n = 400 if tier == "quick" else 30000
+    # systematic: WCS-backed extra coords that are just a coupled celestial pair sitting on the cube's last two array
+    # axes; those two axes are indexed away one at a time (either first), the rest of the cube stays
+    for nd in (3, 4):
+        for mapping in ([0, 1], [1, 0]):
+            for first in (-1, -2):
+                shape = [3 + (a % 3) for a in range(nd)]
+                it1 = [C.sl()] * nd
+                it1[first] = rng.choice([0, 1, -1])
+                it2 = [C.sl()] * (nd - 1)
+                it2[-1] = rng.choice([0, 1, -1])
+                yield {"shape": shape, "fam": rng.choice(["probe", "fits_cel"]), "wseed": rng.randrange(10**6),
+                       "ecs": [{"kind": "wcs", "mapping": mapping, "efam": "fits_cel"}],
+                       "steps": [{"items": it1}, {"items": it2}]}
     for k in range(n):
         nd = rng.choice([1, 2, 2, 3, 3, 4])
         shape = [rng.randint(2, 5) for _ in range(nd)]
-        ecs, shape = E.gen_layout(rng, nd, shape, n_ecs=rng.choice([0, 0, 1, 1, 2, 3]))
-        chain = E.gen_chain(rng, shape, rng.choice([1, 1, 2, 3]), need_drop=True)
+        ecs, shape = E.gen_layout(rng, nd, shape, n_ecs=rng.choice([0, 0, 1, 1, 2, 3]), p_wcs=0.22)
+        chain = E.gen_chain(rng, shape, rng.choice([1, 2, 2, 3]), need_drop=True)
         steps = []
         added = []
         for items in chain:
